@@ -298,6 +298,33 @@ def run(ck, replay=None):
     Ts = {"2d": 3, "3d": 2, "sim2d": 3, "sim3d": 2}
     darsia = import_darsia()
     rng = random.Random(ck.seed)
+    # two images of one shape placed elsewhere and with other voxel sizes (and acquisition times), cut and sliced along every
+    # interleaving of spec/TwoObjects.tla: every extract is placed and stamped as ITS source prescribes
+    from lib import twoobj
+    thists = twoobj.histories(ck)
+    tspecs = []
+    for nd in (2, 3):
+        shp = (4, 5) if nd == 2 else (3, 4, 2)
+
+        def make(o, nd=nd, shp=shp):
+            f = 1.0 if o == "a" else 2.5
+            arr = np.arange(float(np.prod(shp) * 3)).reshape(shp + (3,)) + (0 if o == "a" else 1000)
+            return darsia.Image(arr, space_dim=nd, dimensions=[f * 0.5 * (m + 1) * shp[m] for m in range(nd)], origin=[(1.0 if o == "a" else -4.0) * (m + 1) for m in range(nd)],
+                                scalar=True, series=True, time=[(1.0 if o == "a" else 7.0) * t for t in range(3)])
+
+        def use(o, img, nd=nd, shp=shp):
+            roi = tuple(slice(1, shp[m]) for m in range(nd))
+            sub = img.subregion(roi)
+            ts = sub.time_slice(1)
+            ti = img.time_interval(slice(1, 3))
+            cs = sub.coordinatesystem
+            return [np.asarray(sub.img, dtype=float), np.asarray(sub.origin, dtype=float), np.asarray(sub.dimensions, dtype=float), np.asarray(ts.img, dtype=float),
+                    np.asarray([ts.time], dtype=float), np.asarray(ti.time, dtype=float), np.asarray(cs.coordinate([1] * nd), dtype=float),
+                    np.asarray(img.subregion(darsia.make_coordinate([np.asarray(img.coordinatesystem.coordinate([1] * nd)), np.asarray(img.coordinatesystem.coordinate(list(shp)))])).img, dtype=float)]
+
+        sel = thists if ck.tier != "quick" else [h for h in thists if len(h) <= 4]
+        tspecs.append((sel, f"image-{nd}d", make, use, lambda x, y: all(p_.shape == q_.shape and np.allclose(p_, q_, rtol=1e-12, atol=1e-12) for p_, q_ in zip(x, y)), f"twin:{nd}d"))
+    ck.cov["twin_object_histories"] = twoobj.run(ck, "C02", tspecs)
     cases = []
     if replay:
         for c in json.load(open(replay))["cases"]:
